@@ -11,6 +11,7 @@ RULE = ('p = partial(f, *a, **k) for f in U({a,b,c},3) (quick: 500 seeded signat
         'raises no TypeError (non-colliding shapes), plus the structural clauses; partials of forwarding wrappers '
         '(callee bound positionally / by keyword) (half of them through a sigtools.modifiers wrapper object) are executed and compared with mask(forwards(outer, callee), 1). '
         'Every fourth partial object is an instance of a subclass that is falsy when only keywords are bound; forwarding partials also go over bound / inherited / class methods, over a callee that is only a keyword-only default (must not be resolved), and two levels deep (partial(outer, mid, inner_a, inner_b)). '
+        'The callee may be reached through two attributes of the bound positional; a second partial object over the same function must not list the first nor change the first answer. '
         'Non-trivial: every retrieval that returned; distinct by (retrieval, function parameters, binding).')
 ASSUMPTIONS = ['bound keywords naming a positional-only parameter are excluded (version-dependent, stated for C03)',
                'where inspect.signature itself refuses a partial object, a ValueError/TypeError from retrieval is accepted']
